@@ -125,6 +125,7 @@ harness!(ad_bo_n2_p0, ad::step_buffered_ordered(&ACfg { n: 2, selfwakes: 0, park
 harness!(ad_tbo_n2, ad::step_buffered_ordered(&ACfg { n: 2, selfwakes: 0, parked: 1, max_remaining: 2 }, true));
 // join_all / try_join_all
 harness!(ja_poll_n2, ja::step_join_all(&JCfg { n: 2, selfwakes: 0 }));
+harness!(ja_poll_n3, ja::step_join_all(&JCfg { n: 3, selfwakes: 0 }));
 harness!(tja_poll_n2, ja::step_try_join_all(&JCfg { n: 2, selfwakes: 0 }));
 
 // Layer W: the real waker_list.rs (run with layer "real"); on the model build the same shapes check the model
@@ -219,6 +220,7 @@ pub fn table() -> &'static [(&'static str, fn())] {
         ("fob_poll_c2_p0", fob_poll_c2_p0),
         ("ja_poll_n2", ja_poll_n2),
         ("tja_poll_n2", tja_poll_n2),
+        ("ja_poll_n3", ja_poll_n3),
         ("ad_bu_n2", ad_bu_n2),
         ("ad_bu_n1", ad_bu_n1),
         ("ad_bu_n3", ad_bu_n3),
